@@ -403,9 +403,14 @@ fn gen_family(st: &mut Station, cfg: &Cfg, r: &mut Rng) -> Vec<Item> {
         let parent = members[r.usize_below(members.len())].clone();
         let child = if members.len() >= 2 && r.chance(0.4) {
             let other = &members[r.usize_below(members.len())];
-            let cut = r.range(2, (parent.len() - 1) as u64) as usize;
-            let mut c = parent[..cut].to_vec();
-            c.extend_from_slice(&other[cut..]);
+            // crossover at an arbitrary BIT position (fields are not byte aligned)
+            let cut = r.range(13, (parent.len() * 8 - 1) as u64) as usize;
+            let mut c = other.clone();
+            c[..cut / 8].copy_from_slice(&parent[..cut / 8]);
+            if cut % 8 != 0 {
+                let keep = 0xFFu8 << (8 - cut % 8);
+                c[cut / 8] = (parent[cut / 8] & keep) | (other[cut / 8] & !keep);
+            }
             c
         } else {
             let mut c = parent.clone();
